@@ -240,8 +240,8 @@ Definition w_sdec (c : cfg) (s : st) (d : sdec) : wres :=
 (* decisions of one iteration of the loop of _write_application (one packet), in the order of the source *)
 Record app_iter := mkAI {
   ai_paced : bool;                       (* the pacer says wait: break before start_packet *)
+  ai_ack : option ack_in;                (* ACK (first since fix 7b299f1) *)
   ai_challenge : bool;                   (* PATH_CHALLENGE *)
-  ai_ack : option ack_in;                (* ACK *)
   ai_hs_done : bool;                     (* HANDSHAKE_DONE *)
   ai_responses : list unit;              (* one PATH_RESPONSE per queued remote challenge *)
   ai_new_cids : list (Z * Z);            (* NEW_CONNECTION_ID: sequence number, len(cid) *)
@@ -257,8 +257,8 @@ Record app_iter := mkAI {
 }.
 
 Definition w_app_iter (c : cfg) (s : st) (d : app_iter) : wres :=
-  wseq (w_if (ai_challenge d) (w_path_challenge c) s) (fun s =>
   wseq (w_opt (w_ack_in c) s (ai_ack d)) (fun s =>
+  wseq (w_if (ai_challenge d) (w_path_challenge c) s) (fun s =>
   wseq (w_if (ai_hs_done d) (w_handshake_done c) s) (fun s =>
   wseq (w_list (fun s _ => w_path_response c s) s (ai_responses d)) (fun s =>
   wseq (w_list (fun s x => w_new_connection_id c s (fst x) (snd x)) s (ai_new_cids d)) (fun s =>
